@@ -430,6 +430,9 @@ def gen_reg_case(rng, transports):
     if rng.random() < 0.45:
         c["R"] = rng.choice(names) if rng.random() > 0.04 else "nosuch"
         opts.append(["-R", c["R"]])
+        if rng.random() < 0.3:
+            # a second -R: the default changes while the words are read (the last one counts)
+            opts.append(["-R", rng.choice(names)])
     if rng.random() < 0.35:
         c["envtype"] = rng.choice(names) if rng.random() > 0.04 else "nosuch"
     rng.shuffle(opts)
@@ -457,13 +460,24 @@ def pinned_reg_cases(transports):
     out = []
     t1, t2, t3 = transports["r01"], transports["r02"], transports["r03"]
 
-    def mk(wargs, excl=(), l=None, R=None, envtype=None, loaded=("r01", "r02", "r03", "r07"), cmd=("true",), ls=None):
-        c = {"loaded": None, "env": {}, "excl": list(excl), "l": l, "R": R, "envtype": envtype,
+    def mk(wargs, excl=(), l=None, R=None, envtype=None, loaded=("r01", "r02", "r03", "r07"), cmd=("true",), ls=None,
+           pre_R=None, mid_R=None, pre_l=None):
+        """pre_R / pre_l: a -R / -l BEFORE the first -w; mid_R: a -R between the first and the second -w; R / l: behind
+        the last -w.  The LAST -R / -l of the command line is the one that counts, wherever the words stand"""
+        lastR = R if R is not None else (mid_R if mid_R is not None else pre_R)
+        lastl = l if (l is not None or ls) else pre_l
+        c = {"loaded": None, "env": {}, "excl": list(excl), "l": lastl, "R": lastR, "envtype": envtype,
              "loaded_ids": list(loaded), "words": [], "cmd": list(cmd), "pinned": True}
         argv = []
-        for ws in wargs:
+        if pre_R is not None:
+            argv += ["-R", pre_R]
+        if pre_l is not None:
+            argv += ["-l", pre_l]
+        for k_, ws in enumerate(wargs):
             argv += ["-w", ",".join(ws)]
             c["words"] += split_top(",".join(ws))
+            if k_ == 0 and mid_R is not None:
+                argv += ["-R", mid_R]
         if excl:
             argv += ["-x", ",".join(excl)]
         for x in (ls if ls is not None else ([l] if l is not None else [])):
@@ -528,6 +542,9 @@ def pinned_reg_cases(transports):
         mk([["h1", "u1@h2"]], l="L" * n_)
         mk([["W" * n_ + "@h1", "h2"]], l="bob")
         mk([[t2 + ":" + "V" * n_ + "@h1", "u1@h1"]])
+        # every -l is tested as it is read: one beyond the limit refuses the run although a later -l replaces it
+        mk([["h1", "u1@h2"]], ls=["L" * n_, "bob"], l="bob")
+        mk([["h1", "u1@h2"]], pre_l="L" * n_, l="bob")
     # 8. rank = position in the list that is left after the exclusions
     six = ["n1", "n2", "n3", "n4", "n5", "n6"]
     for ex in (["n1"], ["n6"], ["n3"], ["n2", "n4"], ["n1", "n2", "n3"], ["n1", "n6"], ["n5", "n6"]):
@@ -540,6 +557,25 @@ def pinned_reg_cases(transports):
     for ws in (["@h1", "h2"], [t2 + ":@h1", "h1"], [":h1", "h2"], [t1 + "::h1"], ["u1@h1:x", "h2"], ["h1", "u1@"], ["h1", t2 + ":"],
                ["u1@u2@h1", "u2@h1"], [t2 + ":" + t3 + ":h1"], ["h1@", "h2"], ["u1@:h1"], [t1 + ":u1@h1:2", "h1:2"]):
         mk([ws], l="bob")
+    # 10. the defaults are read AFTER the whole command line: a word is registered with what IT says, never with (or
+    #     without, because it "repeats") the default in effect when it is read.  A typed / user@ word that repeats the
+    #     default of that moment (-R / -l before it, PDSH_RCMD_TYPE), then a default that changes (-R / -l behind it, or
+    #     between two -w) or a later word that names the same host differently
+    for d0, other in ((t1, t3), (t2, t1)):
+        for how in ("R-before", "env", "env+R-before"):
+            pre = d0 if "R-before" in how else None
+            ev = (d0 if how == "env" else other) if "env" in how else None
+            for ws in ([[d0 + ":h1", "h2"]], [[d0 + ":u1@h1", other + ":h1", "h2"]], [[d0 + ":h[1-2]"], [other + ":u2@h[2-3]"]],
+                       [["u1@h1", d0 + ":h1"], [other + ":h1", "h2"]], [[d0 + ":h1"], [d0 + ":u2@h1", other + ":h2"]]):
+                for after in (None, other, d0):
+                    mk(ws, pre_R=pre, envtype=ev, R=after)
+                if len(ws) == 2:
+                    mk(ws, pre_R=pre, envtype=ev, mid_R=other)
+                    mk(ws, pre_R=pre, envtype=ev, mid_R=other, R=d0)
+    for ws in ([["bob@h1", "h2"]], [["bob@h1"], ["u1@h1", "h2"]], [[t2 + ":bob@h[1-2]"], ["h2", "u2@h3"]]):
+        mk(ws, pre_l="bob")
+        mk(ws, pre_l="bob", l="u1")
+        mk(ws, pre_l="u1", l="bob")
     # more targets than one batch of threads (fanout 32): the rank is still the position in the list
     mk([["n[1-40]"]], excl=["n7"])
     mk([["u1@n[1-20]", t2 + ":n[15-45]"]], l="bob")
@@ -554,6 +590,13 @@ def hostpart(w):
     if ":" in w and not w.split(":", 1)[1].startswith(":"):
         return w.split(":", 1)[1]
     return w
+
+
+def earlier_ls(c):
+    """the -l options of the command line before the last one (every option of a registry case takes an argument)"""
+    av = c["argv"][:len(c["argv"]) - len(c["cmd"])]
+    ls = [av[i + 1] for i in range(0, len(av) - 1, 2) if av[i] == "-l"]
+    return " ls=" + "+".join(hx(x) for x in ls[:-1]) if len(ls) > 1 else ""
 
 
 def reg_line(c, transports, luser):
@@ -572,8 +615,8 @@ def reg_line(c, transports, luser):
         if h in targets:
             targets.remove(h)
     opt = lambda v: "~" if v is None else hx(v)
-    return "reg loaded=%s env=%s R=%s l=%s luser=%s T=%s %s" % (
-        "+".join(hx(n) for n in names), opt(c["envtype"]), opt(c["R"]), opt(c["l"]), hx(luser),
+    return "reg loaded=%s env=%s R=%s l=%s%s luser=%s T=%s %s" % (
+        "+".join(hx(n) for n in names), opt(c["envtype"]), opt(c["R"]), opt(c["l"]), earlier_ls(c), hx(luser),
         "+".join(hx(t) for t in targets), " ".join(wtoks)), targets
 
 
@@ -589,8 +632,8 @@ def regcli_line(c, transports, luser):
             evs.append("E=w:" + hx(av[i + 1]))
         elif av[i] == "-x":
             evs.append("E=x:" + hx(av[i + 1]))
-    return "regcli loaded=%s env=%s R=%s l=%s luser=%s %s" % (
-        "+".join(hx(n) for n in names), opt(c["envtype"]), opt(c["R"]), opt(c["l"]), hx(luser), " ".join(evs))
+    return "regcli loaded=%s env=%s R=%s l=%s%s luser=%s %s" % (
+        "+".join(hx(n) for n in names), opt(c["envtype"]), opt(c["R"]), opt(c["l"]), earlier_ls(c), hx(luser), " ".join(evs))
 
 
 def part_c(ctx, cov, dist, rng, repo, only=None):
@@ -1159,6 +1202,47 @@ def part_d(ctx, cov, dist, rng, repo, only=None):
 
 # ------------------------------------------------------------------------------------- (f) xrcmd in a scripted world
 
+def xe_part(ctx, cov, dist, rng, exe, lbs):
+    """the text of a REFUSAL as xrcmd relays it (Exec/XrcmdErr.lean): replies `verdict text` with the first line ending
+    before, on and behind every boundary of the LINEBUFSIZE buffer, with and without a newline, more lines behind it.
+    impl vs model, and impl vs the specification: the first line of the server's text, whole when it fits the buffer
+    with its "\\n\\0", else a prefix of it that does -- never anything else"""
+    texts = []
+    for n_ in [0, 1, 2, 17, 200] + list(range(lbs - 6, lbs + 4)) + [lbs + 900, 2 * lbs - 100]:
+        n_ = min(n_, 3900)
+        body = bytes(rng.choice(b"abcdefghijklmnopqrstuvwxyz :.%/-") for _ in range(n_))
+        texts += [body, body + b"\n", body + b"\nsecond line\n", body[:n_ // 2] + b"\n" + body[n_ // 2:]]
+    texts += [b"\n", b"\n\n", b"Permission denied.\n", b"x" * 40 + b"\r\n"]
+    lines = ["xe " + hx(bytes([rng.choice([1, 1, 2, 255])]) + t) for t in texts]
+    lines += ["xe " + hx(b"\0"), "xe -"]
+    (ans, crash), = run_batch([exe], [lines], env=SAN_ENV, timeout=300)
+    if crash is not None:
+        k = len(ans)
+        ctx.offender("crash", "xrcmd.c aborts while relaying the server's refusal `%s`: %s" % (lines[k][:100] if k < len(lines) else "?",
+                                                                                          crash[-500:]),
+                     {"xe": lines[k] if k < len(lines) else None})
+        lines = lines[:k]
+    ml = ctx.model("rcmd", "".join(l + "\n" for l in lines), args=["model", "unchanged"]) if lines else []
+    dist["xe"] = len(lines)
+    for l, a, m in zip(lines, ans, ml):
+        cov["evaluations"] += 1
+        if a != m:
+            ctx.disagreement("xrcmd error text vs model", "impl `%s` model `%s`" % (a[:200], m[:200]), {"xe": l})
+        rb = bytes.fromhex(l.split()[1]) if l.split()[1] != "-" else b""
+        if rb[:1] in (b"", b"\0"):
+            if a != "err ~":
+                ctx.offender("xr:error-text", "a diagnostic with a server text although the server did not refuse: `%s`" % a[:120], {"xe": l})
+            continue
+        first = rb[1:].split(b"\n")[0]
+        got = None if a in ("err ~",) or not a.startswith("err ") else (b"" if a[4:] == "-" else bytes.fromhex(a[4:]))
+        ok = got is not None and got.endswith(b"\n") and first.startswith(got[:-1]) and len(got) + 1 <= lbs and \
+            (got[:-1] == first or len(first) + 2 > lbs)
+        if not ok:
+            dist.setdefault("offenders", {})["xr:error-text"] = dist.get("offenders", {}).get("xr:error-text", 0) + 1
+            ctx.offender("xr:error-text", "the server's refusal `%s...` (first line %d bytes) is relayed as `%s...` (%s bytes)" % (
+                first[:40], len(first), (got or b"")[:40], "?" if got is None else len(got)), {"xe": l})
+
+
 def part_f(ctx, cov, dist, rng, only=None):
     """the unmodified xrcmd.c in harness/xrcmd_harness.c: which reserved ports are busy, what every connect() answers,
     whether sleep() is interrupted, what xpoll()/accept() report and what the peer replies are the case; observed:
@@ -1248,6 +1332,8 @@ def part_f(ctx, cov, dist, rng, only=None):
                      {"xr": todo[k] if k < len(todo) else None})
         todo = todo[k + 1:]
     cases = done_cases
+    if only is None and not dist.get("offenders", {}).get("xr:error-reply-overflow"):
+        xe_part(ctx, cov, dist, rng, exe, lbs)
     ml = ctx.model("rcmd", "".join(c + "\n" for c in cases), args=["model", "unchanged"]) if cases else []
     obs = []
     for c, a in zip(cases, ans):
